@@ -255,8 +255,14 @@ func readContractLines(path string) ([]rawLine, string, error) {
 	return out, pkg, nil
 }
 
+// specOverlay replaces spec/stub files of /verif for the selftest's engine canaries (never set by a check).
+var specOverlay map[string][]byte
+
 func readPlainLines(path string) ([]rawLine, error) {
 	data, err := os.ReadFile(path)
+	if ov, ok := specOverlay[path]; ok {
+		data, err = ov, nil
+	}
 	if err != nil {
 		return nil, err
 	}
